@@ -1,4 +1,4 @@
-\* deeper: generations 0..3, four harness actions, the two quick configurations
+\* deeper: all four kinds, generations 0..3, three harness actions, the two quick configurations
 SPECIFICATION Spec
 CONSTANTS Kinds = {"DE", "DE2", "NM", "PW"}
   NP = 2
@@ -7,7 +7,7 @@ CONSTANTS Kinds = {"DE", "DE2", "NM", "PW"}
   MaxCells = 12
   Settings <- QSettings
   Design = "ok"
-  MaxOps = 4
+  MaxOps = 3
 INVARIANT TypeOK
 INVARIANT ResumeEquivalence
 INVARIANT CopyCounts
